@@ -21,7 +21,7 @@ package py
 //@ global-invariant bigvals: bigval[bigIntMax] == 9223372036854775807 && bigval[bigIntMin] == 0 - 9223372036854775808 && bigval[bigInt0] == 0 && bigval[bigInt1] == 1 && bigval[bigInt10] == 10
 //@ global-invariant errs: divisionByZero != nil && divisionByZero.Base == ZeroDivisionError && negativeShiftCount != nil && negativeShiftCount.Base == ValueError
 //@ global-invariant errs2: overflowError != nil && overflowError.Base == OverflowError && overflowErrorGo != nil && overflowErrorGo.Base == OverflowError
-//@ global-invariant singletons: NotImplemented != nil && None != nil
+//@ global-invariant singletons: NotImplemented != nil && is(NotImplemented, *Exception)
 
 // ---- py/int.go -----------------------------------------------------------------------------
 
@@ -49,3 +49,9 @@ package py
 //@   ensures val: den(r) == bigval[x]
 //@   ensures canon: canon(r)
 //@   ensures same: is(r, *BigInt) ==> r.(*BigInt) == x
+
+// ---- py/exception.go -----------------------------------------------------------------------
+
+//@ func ExceptionNewf(metatype, format, a) (r)
+//@   modifies *
+//@   ensures made: r != nil && r.Base == metatype
